@@ -800,6 +800,9 @@ class Collection(object):
                                 continue
 
                             arr_copy = copy.deepcopy(arr)
+                            # Rebuild the array from the elements that stay: list.remove()
+                            # would drop the first element that is == to a pulled one.
+                            kept = []
                             if isinstance(value, dict):
                                 for obj in arr_copy:
                                     try:
@@ -807,15 +810,17 @@ class Collection(object):
                                     except OperationFailure:
                                         is_matching = False
                                     if is_matching:
-                                        arr.remove(obj)
                                         continue
 
                                     if filter_applies({'field': value}, {'field': obj}):
-                                        arr.remove(obj)
+                                        continue
+                                    kept.append(obj)
                             else:
                                 for obj in arr_copy:
                                     if value == obj:
-                                        arr.remove(obj)
+                                        continue
+                                    kept.append(obj)
+                            arr[:] = kept
                 elif k == '$pullAll':
                     for field, value in v.items():
                         nested_field_list = field.rsplit('.')
